@@ -68,8 +68,47 @@ func verifC10Files() [][]byte {
 		}
 		files = append(files, b)
 	}
+	// several models back to back in one upload (create's ggufLayers loop): every decode starts where the previous
+	// one ended; trailing bytes that are not a model; the same model twice (equal lengths)
+	var second bytes.Buffer
+	ggml.WriteGGUF(verifMemWS{&second}, ggml.KV{"general.architecture": "llama", "general.alignment": uint32(8), "llama.block_count": uint32(1), "x": "yz"},
+		[]ggml.Tensor{{Name: "blk.0.ffn_up.weight", Kind: 0, Shape: []uint64{3}, WriterTo: bytes.NewReader(make([]byte, 12))}})
+	var third bytes.Buffer
+	ggml.WriteGGUF(verifMemWS{&third}, ggml.KV{"general.architecture": "llama", "llama.block_count": uint32(2)},
+		[]ggml.Tensor{{Name: "blk.1.attn_k.weight", Kind: 1, Shape: []uint64{4, 8}, WriterTo: bytes.NewReader(make([]byte, 64))}})
+	hdr := []byte("GGUF\x03\x00\x00\x00\x00\x00\x00\x00\x00\x00\x00\x00\x00\x00\x00\x00\x00\x00\x00\x00")
+	a, b, c := base.Bytes(), second.Bytes(), third.Bytes()
+	cat := func(parts ...[]byte) []byte { return bytes.Join(parts, nil) }
+	multi := [][]byte{
+		cat(a, a), cat(a, b), cat(b, a), cat(c, c), cat(a, a, a), cat(a, b, c), cat(c, b, a), cat(hdr, hdr), cat(hdr, a), cat(a, hdr),
+		cat(a, []byte("GGUF")), cat(a, []byte("GGU")), cat(a, []byte{0}), cat(a, []byte("GGUF\x03\x00\x00\x00")), cat(a, []byte("GGUF\x03\x00\x00\x00\x00\x00\x00\x00")),
+		cat(a, []byte("not a model")), cat(a, a[:len(a)/2]), cat(a, b[:30]), cat(b, a[:len(a)-1]), cat(c, c[:24]), cat(c, c[:23]),
+	}
+	for i := 0; i < zzverif.EnvInt("VERIF_N", 24)/2; i++ {
+		r := root.Fork()
+		parts := [][]byte{}
+		for k := r.Range(2, 4); k > 0; k-- {
+			parts = append(parts, zzverif.Pick(r, [][]byte{a, b, c, hdr}))
+		}
+		m := cat(parts...)
+		switch r.Intn(4) {
+		case 0:
+			m = m[:r.Range(len(parts[0]), len(m))] // cut somewhere after the first model
+		case 1:
+			m = append(m, r.Bytes(r.Range(1, 40))...)
+		case 2:
+			off := r.Range(len(parts[0]), len(m)-8)
+			binary.LittleEndian.PutUint64(m[off:], zzverif.Pick(r, vals))
+		}
+		multi = append(multi, m)
+	}
+	verifC10MultiStart = len(files)
+	files = append(files, multi...)
 	return files
 }
+
+// index of the first multi-model file in verifC10Files (the ones compared with the model's ggufLayers)
+var verifC10MultiStart int
 
 // verifMemWS is an in-memory io.WriteSeeker good enough for WriteGGUF (append-only, Seek(0, Current)).
 type verifMemWS struct{ b *bytes.Buffer }
@@ -127,6 +166,24 @@ func TestVerifC10APIChild(t *testing.T) {
 		stream := false
 		st, body := post("/api/create", map[string]any{"model": "m", "files": map[string]string{"m.gguf": digest}, "stream": &stream})
 		fmt.Printf("VERIF create=%d error=%v\n", st, strings.Contains(body, "error"))
+		if man, err := os.ReadFile(filepath.Join(os.Getenv("OLLAMA_MODELS"), "manifests", "registry.ollama.ai", "library", "m", "latest")); err == nil {
+			var mf struct {
+				Layers []struct {
+					MediaType string `json:"mediaType"`
+					Size      int64  `json:"size"`
+				} `json:"layers"`
+			}
+			if json.Unmarshal(man, &mf) == nil {
+				var sizes []string
+				for _, l := range mf.Layers {
+					switch l.MediaType {
+					case "application/vnd.ollama.image.model", "application/vnd.ollama.image.adapter", "application/vnd.ollama.image.projector":
+						sizes = append(sizes, strconv.FormatInt(l.Size, 10))
+					}
+				}
+				fmt.Printf("VERIF layers=%s\n", strings.Join(sizes, ","))
+			}
+		}
 	case "show":
 		// a model whose weights blob is the crafted file, installed directly in the store
 		models := os.Getenv("OLLAMA_MODELS")
@@ -156,9 +213,10 @@ func TestVerifC10API(t *testing.T) {
 	defer out.Close()
 	files := verifC10Files()
 	type result struct {
-		mode string
-		idx  int
-		res  string
+		mode   string
+		idx    int
+		res    string
+		layers string
 	}
 	results := make([]result, 0, 2*len(files))
 	var mu sync.Mutex
@@ -171,9 +229,9 @@ func TestVerifC10API(t *testing.T) {
 				defer wg.Done()
 				sem <- struct{}{}
 				defer func() { <-sem }()
-				res := verifC10RunChild(idx, mode)
+				res, layers := verifC10RunChild(idx, mode)
 				mu.Lock()
-				results = append(results, result{mode, idx, res})
+				results = append(results, result{mode, idx, res, layers})
 				mu.Unlock()
 			}(idx, mode)
 		}
@@ -195,18 +253,35 @@ func TestVerifC10API(t *testing.T) {
 			out.L2("api-"+r.mode+"-"+strings.Fields(r.res)[0], caseLine, r.res)
 		}
 		out.Count("api_" + r.mode + "_" + strings.Fields(r.res)[0])
+		if r.mode == "create" {
+			// L1: what create makes of the upload vs the model's ggufLayers (layer count and bytes per layer)
+			impl := "err"
+			switch {
+			case strings.HasPrefix(r.res, "hang"):
+				impl = "loop"
+			case strings.HasPrefix(r.res, "death"), strings.HasPrefix(r.res, "unknown"), strings.HasPrefix(r.res, "panic-recovered"):
+				impl = strings.Fields(r.res)[0]
+			case strings.HasPrefix(r.res, "create=200 error=false"):
+				impl = "ok sizes=" + r.layers
+			}
+			out.Case("gguf-layers "+zzverif.Hex(files[r.idx]), impl)
+			if r.idx >= verifC10MultiStart {
+				out.Count("api_multi_model_files")
+				out.Count("api_multi_" + strings.Fields(impl)[0])
+			}
+		}
 		fmt.Fprintf(os.Stderr, "c10-api %s #%d: %s\n", r.mode, r.idx, r.res)
 	}
 }
 
-func verifC10RunChild(idx int, mode string) string {
+func verifC10RunChild(idx int, mode string) (string, string) {
 	cmd := exec.Command(os.Args[0], "-test.run", "^TestVerifC10APIChild$", "-test.v")
 	cmd.Env = append(os.Environ(), fmt.Sprintf("VERIF_C10_CHILD=%d", idx), "VERIF_C10_MODE="+mode, "OLLAMA_DEBUG=0")
 	var buf bytes.Buffer
 	cmd.Stdout, cmd.Stderr = &buf, &buf
 	done := make(chan error, 1)
 	if err := cmd.Start(); err != nil {
-		return "unknown start: " + err.Error()
+		return "unknown start: " + err.Error(), ""
 	}
 	go func() { done <- cmd.Wait() }()
 	res := ""
@@ -218,9 +293,12 @@ func verifC10RunChild(idx int, mode string) string {
 		res = "hang"
 	}
 	text := buf.String()
-	var status, alive string
+	var status, alive, layers string
 	undecodable := false
 	for _, line := range strings.Split(text, "\n") {
+		if strings.HasPrefix(line, "VERIF layers=") {
+			layers = strings.TrimPrefix(line, "VERIF layers=")
+		}
 		if strings.HasPrefix(line, "VERIF "+mode+"=") {
 			status = strings.TrimPrefix(line, "VERIF ")
 		}
@@ -253,5 +331,5 @@ func verifC10RunChild(idx int, mode string) string {
 	default:
 		res = "unknown " + strings.ReplaceAll(text[max(0, len(text)-200):], "\n", " ")
 	}
-	return res
+	return res, layers
 }
